@@ -1511,3 +1511,102 @@ func ruleLoopFlowKept(c *Ctx, rule string) {
 	c.CallSites(n)
 	c.Floor(rule, 1)
 }
+
+// ruleNilFieldBelief (C10.NILFIELD): a contradiction rule. Where some function treats a bbolt handle kept in a
+// struct field as possibly absent — it compares the value it stores there, or the field itself, with nil — every
+// call through that field is made where the field is known to be non-nil. One method tolerating a nil cursor
+// and a sibling using it unconditionally means one of them is wrong; on the query path the wrong one panics.
+func ruleNilFieldBelief(c *Ctx, rule string) {
+	p := c.P
+	isHandle := func(t types.Type) bool {
+		pt, ok := t.Underlying().(*types.Pointer)
+		if !ok {
+			return false
+		}
+		// cursors only: the bucket inside a TypedBucket is absent exactly when the bucket carries an error, and its
+		// methods answer for that through the error state (read before arming: 40 unguarded uses, all behind HasError)
+		nm := namedOf(pt.Elem())
+		return nm != nil && nm.Obj().Pkg() != nil && strings.HasSuffix(nm.Obj().Pkg().Path(), "bbolt") && nm.Obj().Name() == "Cursor"
+	}
+	believed := map[*types.Var]string{} // field -> where the belief is stated
+	fns := c.prodFuncs("boltz")
+	for _, fn := range fns {
+		for _, b := range fn.Blocks {
+			for _, in := range b.Instrs {
+				switch x := in.(type) {
+				case *ssa.Store:
+					f, _ := fieldOfAddr(x.Addr)
+					if f == nil || !isHandle(f.Type()) {
+						continue
+					}
+					if k, isK := x.Val.(*ssa.Const); isK && k.IsNil() {
+						believed[f] = FnName(fn) + " stores nil"
+						continue
+					}
+					if refs := x.Val.Referrers(); refs != nil {
+						for _, r := range *refs {
+							if bo, isB := r.(*ssa.BinOp); isB {
+								if k, isK := bo.Y.(*ssa.Const); isK && k.IsNil() {
+									believed[f] = FnName(fn) + " tests the value it stores"
+								}
+							}
+						}
+					}
+				case *ssa.BinOp:
+					if k, isK := x.Y.(*ssa.Const); isK && k.IsNil() {
+						if f, _ := loadedField(x.X); f != nil && isHandle(f.Type()) {
+							believed[f] = FnName(fn) + " tests the field"
+						}
+					}
+				}
+			}
+		}
+	}
+	n := 0
+	for _, fn := range fns {
+		var fi *FactInfo
+		for _, call := range callsIn(fn) {
+			cc := call.Common()
+			if cc.IsInvoke() || len(cc.Args) == 0 {
+				continue
+			}
+			f, _ := loadedField(cc.Args[0])
+			if f == nil {
+				continue
+			}
+			var where string
+			for bf, w := range believed {
+				if sameVar(bf, f) {
+					where = w
+				}
+			}
+			if where == "" {
+				continue
+			}
+			cal, _ := calleeOf(cc)
+			if cal == nil {
+				continue
+			}
+			if sig, _ := cal.Type().(*types.Signature); sig == nil || sig.Recv() == nil {
+				continue // handed on as an argument, not called through
+			}
+			n++
+			c.Analysed(FnName(fn))
+			if fi == nil {
+				fi = ComputeFacts(fn)
+			}
+			guarded := fi.HoldsWhere(call.Block(), func(ft Fact) bool {
+				if ft.Kind != "nonnil" || !ft.Pol {
+					return false
+				}
+				lf, _ := loadedField(ft.V)
+				return sameVar(lf, f)
+			})
+			c.Check(guarded, rule, FnName(fn)+": "+describeInstr(call)+" through field "+f.Name(), p.Pos(call.Pos()), "called where the field is known to be non-nil", "the bbolt handle in field "+f.Name()+" is treated as possibly absent elsewhere ("+where+") but is called through here without a nil test: a set symbol opened on a row that has no bucket for the field holds no cursor, and the seek shortcut of `anyOf(set) = \"v\"` panics on it")
+		}
+	}
+	if n == 0 {
+		c.OK(rule, "boltz: bbolt handles kept in fields", "-", "no field holding a bbolt handle is treated as possibly absent")
+	}
+	c.CallSites(n)
+}
